@@ -213,11 +213,11 @@ func runPoints(e *encoder, pts []uint32) {
 func sweepAll(e *encoder) {
 	const chunks = 256
 	type res struct {
-		first, last uint32
+		first, last   uint32
 		firstV, lastV uint32
-		kind, what  string
-		c           Case
-		runs        int64
+		kind, what    string
+		c             Case
+		runs          int64
 	}
 	results := make([]res, chunks)
 	var wg sync.WaitGroup
